@@ -31,7 +31,7 @@ __all__ = ["OFXTree", "TreeBuilder", "ParseError"]
 # stdlib imports
 import re
 import xml.etree.ElementTree as ET
-from typing import Tuple, Optional
+from typing import List, Tuple, Optional
 import logging
 
 
@@ -149,6 +149,32 @@ class TreeBuilder(ET.TreeBuilder):
         """,
         re.VERBOSE,
     )
+
+    def __init__(self, *args, **kwargs):
+        super().__init__(*args, **kwargs)
+        # Tags of the elements currently open, outermost first
+        self._open: List[str] = []
+        self._closed_root = False
+
+    def start(self, tag, attrs):
+        if self._closed_root:
+            raise ParseError(f"<{tag}> after end of root element")
+        self._open.append(tag)
+        return super().start(tag, attrs)
+
+    def end(self, tag):
+        if not self._open or self._open[-1] != tag:
+            expected = f"</{self._open[-1]}>" if self._open else "no end tag"
+            raise ParseError(f"Unexpected </{tag}>; expected {expected}")
+        self._open.pop()
+        if not self._open:
+            self._closed_root = True
+        return super().end(tag)
+
+    def close(self):
+        if self._open:
+            raise ParseError(f"Unclosed <{self._open[-1]}> at end of data")
+        return super().close()
 
     def feed(self, data: str) -> None:
         """
